@@ -6,6 +6,7 @@ package rules
 import (
 	"fmt"
 	"go/token"
+	"go/types"
 	"strings"
 
 	"golang.org/x/tools/go/ssa"
@@ -112,7 +113,8 @@ func RuleE2E3(c *Ctx) {
 			}
 		}
 		c.Check(ok, "E2", key, ll.Pos(), strings.Join(uniqStrings(why), "; "), "Neg(x) exactly on the not-largest edge, before x.Bytes()")
-		xCell, yCell := enc.Call.Args[0], ll.Call.Args[0]
+		// the cells that hold affine x and y; a by-value copy (`x := affineX`) is looked through
+		xCell, yCell := copySource(enc.Call.Args[0]), copySource(ll.Call.Args[0])
 		// E3
 		key3 := name + ":affine-coordinates"
 		if name == "Bytes" {
@@ -130,32 +132,64 @@ func RuleE2E3(c *Ctx) {
 					ok3 = false
 					why3 = append(why3, "FromProj is not applied to the element itself")
 				}
-				// on the Z != 1 edge both coordinates are overwritten from the FromProj result before use
-				for _, cell := range []struct {
-					cell  ssa.Value
-					uses  []*ssa.Call
-					field int
-					nm    string
-				}{{xCell, encs, 0, "x"}, {yCell, lls, 1, "y"}} {
-					var from ssa.Instruction
-					for _, st := range allStoresTo(fn, cell.cell) {
-						if u, isLoad := st.Val.(*ssa.UnOp); isLoad && u.Op == token.MUL {
-							if fa, isFA := u.X.(*ssa.FieldAddr); isFA && fa.X == fp.Call.Args[0] && fa.Field == cell.field && core.Precedes(fn, fp, st) {
-								from = st
+				// on every outcome of (Z == 1, y largest) the coordinate that is used is the raw one exactly when Z == 1
+				// and FromProj's otherwise: walk the CFG and look at the last value put into the cell before its use
+				for _, oneV := range []int64{0, 1} {
+					for _, llV := range []int64{0, 1} {
+						ov, lv := oneV, llV
+						abs := func(v ssa.Value) (int64, bool) {
+							switch v {
+							case ssa.Value(one):
+								return ov, true
+							case ssa.Value(ll):
+								return lv, true
 							}
+							return 0, false
 						}
-					}
-					if from == nil {
-						ok3 = false
-						why3 = append(why3, "affine "+cell.nm+" is never taken from the FromProj result")
-						continue
-					}
-					cut := boolEdges(fn, one, true)
-					cut.AddInstr(from)
-					for _, use := range cell.uses {
-						if fromWithin(fn, one, cut, use) {
+						ret, path, whyW := core.Walk(fn, abs)
+						if ret == nil {
 							ok3 = false
-							why3 = append(why3, "the projective "+cell.nm+" can be serialised although Z != 1")
+							why3 = append(why3, "cannot evaluate the decision: "+whyW)
+							continue
+						}
+						for _, cell := range []struct {
+							uses  []*ssa.Call
+							field string
+							nm    string
+						}{{encs, "X", "x"}, {lls, "Y", "y"}} {
+							for _, use := range callsOnPath(path, func(cc *ssa.CallCommon) bool {
+								for _, u := range cell.uses {
+									if u.Common() == cc {
+										return true
+									}
+								}
+								return false
+							}) {
+								src := lastValueOnPath(path, use.Call.Args[0], use)
+								kind := "other"
+								if u, isLoad := src.(*ssa.UnOp); isLoad && u.Op == token.MUL {
+									if fa, isFA := u.X.(*ssa.FieldAddr); isFA && fieldNameOf(fa) == cell.field {
+										switch {
+										case fa.X == fp.Call.Args[0] && instrOnPathBefore(path, fp, use):
+											kind = "affine"
+										case strings.HasSuffix(core.PathOf(fa.X), "p.inner"):
+											kind = "raw"
+										}
+									}
+								}
+								want := "affine"
+								if ov == 1 {
+									want = "raw"
+								}
+								if kind != want {
+									ok3 = false
+									if want == "affine" {
+										why3 = append(why3, "the projective "+cell.nm+" can be serialised although Z != 1 (it is not taken from the FromProj result)")
+									} else {
+										why3 = append(why3, "with Z == 1 the serialised "+cell.nm+" is not the element's own coordinate")
+									}
+								}
+							}
 						}
 					}
 				}
@@ -168,6 +202,96 @@ func RuleE2E3(c *Ctx) {
 			c.Check(ok3, "E3", key3, fn.Pos(), why3, "X = elem.X * zInv[i], Y = elem.Y * zInv[i], zInvs = BatchInvert(zs), zs[i] = elem.Z")
 		}
 	}
+}
+
+// lastValueOnPath: the value held by cell (a local, possibly a by-value copy of another) at instruction `at`, following
+// the given path: the last store before `at`, phis resolved by the path's edges.
+func lastValueOnPath(path []*ssa.BasicBlock, cell ssa.Value, at ssa.Instruction) ssa.Value {
+	var val ssa.Value
+	done := false
+	for _, b := range path {
+		for _, ins := range b.Instrs {
+			if ins == at {
+				done = true
+				break
+			}
+			if st, ok := ins.(*ssa.Store); ok && st.Addr == cell {
+				val = st.Val
+			}
+		}
+		if done {
+			break
+		}
+	}
+	for d := 0; d < 6 && val != nil; d++ {
+		switch x := val.(type) {
+		case *ssa.Phi:
+			var next ssa.Value
+			for k, pred := range x.Block().Preds {
+				for j := 0; j+1 < len(path); j++ {
+					if path[j] == pred && path[j+1] == x.Block() {
+						next = x.Edges[k]
+					}
+				}
+			}
+			if next == nil {
+				return val
+			}
+			val = next
+			continue
+		case *ssa.UnOp:
+			// a copy of another local cell: what that cell held when it was copied
+			if al, isAl := x.X.(*ssa.Alloc); isAl && x.Op == token.MUL {
+				if _, isArr := al.Type().Underlying().(*types.Pointer).Elem().Underlying().(*types.Array); isArr {
+					if v2 := lastValueOnPath(path, al, x); v2 != nil {
+						val = v2
+						continue
+					}
+				}
+			}
+		}
+		break
+	}
+	return val
+}
+
+func instrOnPathBefore(path []*ssa.BasicBlock, a, b ssa.Instruction) bool {
+	seenA := false
+	for _, blk := range path {
+		for _, ins := range blk.Instrs {
+			if ins == a {
+				seenA = true
+			}
+			if ins == b {
+				return seenA
+			}
+		}
+	}
+	return false
+}
+
+// copySource: a local cell whose only assignment copies another local cell stands for that cell.
+func copySource(v ssa.Value) ssa.Value {
+	for d := 0; d < 4; d++ {
+		al, ok := v.(*ssa.Alloc)
+		if !ok {
+			return v
+		}
+		sts := storesInto(al)
+		if len(sts) != 1 {
+			return v
+		}
+		u, isLoad := sts[0].Val.(*ssa.UnOp)
+		if !isLoad || u.Op != token.MUL {
+			return v
+		}
+		src, isAl := u.X.(*ssa.Alloc)
+		if !isAl {
+			return v
+		}
+		v = src
+	}
+	return v
 }
 
 func uniqStrings(in []string) []string {
@@ -507,13 +631,25 @@ func RuleL1(c *Ctx) {
 	// Sub
 	if fn := c.P.Fn("banderwagon", "Element", "Sub"); fn != nil {
 		c.Saw(core.FnName(fn))
+		// through the Element wrappers, or directly on the underlying points
 		negs := callsTo(fn, "/banderwagon", "Element", "Neg")
 		adds := callsTo(fn, "/banderwagon", "Element", "Add")
-		ok := len(negs) == 1 && len(adds) == 1
+		sfx := ""
+		if len(negs) == 0 && len(adds) == 0 {
+			negs = callsTo(fn, gbs, "PointProj", "Neg")
+			adds = callsTo(fn, gbs, "PointProj", "Add")
+			sfx = ".inner"
+		}
+		ok := len(negs) == 1 && len(adds) == 1 && len(core.CallsIn(fn)) == 2
 		if ok {
 			_, local := negs[0].Call.Args[0].(*ssa.Alloc)
-			ok = local && core.PathOf(negs[0].Call.Args[1]) == "p:p2" && core.PathOf(adds[0].Call.Args[0]) == "p:p" &&
-				core.PathOf(adds[0].Call.Args[1]) == "p:p1" && adds[0].Call.Args[2] == negs[0].Call.Args[0] && core.Precedes(fn, negs[0], adds[0])
+			ok = local && core.PathOf(negs[0].Call.Args[1]) == "p:p2"+sfx && core.PathOf(adds[0].Call.Args[0]) == "p:p"+sfx &&
+				core.PathOf(adds[0].Call.Args[1]) == "p:p1"+sfx && adds[0].Call.Args[2] == negs[0].Call.Args[0] && core.Precedes(fn, negs[0], adds[0]) && core.PostDominatesEntry(fn, adds[0])
+			for _, r := range core.Returns(fn) {
+				if v := r.Results[0]; v != ssa.Value(adds[0]) && core.PathOf(v) != "p:p" {
+					ok = false
+				}
+			}
 		}
 		c.Check(ok, "L1", "Element.Sub", fn.Pos(), "Sub does not compute p1 + (-p2) through a private negated copy (p2 must not be written, the receiver may alias either operand)", "neg := -p2 (local); p.Add(p1, &neg)")
 	} else {
@@ -619,7 +755,9 @@ func RuleN1N2(c *Ctx) {
 		ok := len(bl) == 1 && len(sb) == 1
 		if ok {
 			reach := core.ReachFrom([]ssa.Value{bl[0]}, nil)
-			ok = reach[sb[0].Call.Args[1]] && wholeSlice(sb[0].Call.Args[1])
+			arg := sb[0].Call.Args[1]
+			// the complete encoding: the returned slice itself, or x[:] of it
+			ok = reach[arg] && (wholeSlice(arg) || arg == ssa.Value(bl[0]))
 		}
 		c.Check(ok, "N2", core.FnName(fn)+":bytes-flow", fn.Pos(), "the scalar is not decoded from the complete little-endian bytes of the mapped base-field value", "SetBytesLE(fp.BytesLE(x/y)[:])")
 	}
